@@ -58,7 +58,7 @@ var commonAssumptions = []string{
 var propSpecs = []PropSpec{
 	{ID: "C18", Pkgs: []string{"dt"},
 		BoundsQ:     "ordered/unordered sets, <=3 operations out of {Add, AddCheck, Delete, DeleteCheck, Populate(2), Extend(2), SortQuick, SortMerge} over values {0,1,2}; after every step Len, Check(0..2), return values and the iterator (multiset, or sequence when ordered) against a reference; Equal against 4 kinds of second set; synchronized set: 2 goroutines x 2 operations (AddCheck/DeleteCheck/Check/Len over {0,1}), history explained by an interleaving, preemption bound 2",
-		BoundsT:     "<=4 operations",
+		BoundsT:     "4 operations (the fourth out of the six single-value operations and sorts)",
 		Outside:     "JSON round trip; value domains beyond 3 values; longer sequences; the unordered iterator's goroutine is scheduled without preemption here (schedules are C04/C13)",
 		Assumptions: commonAssumptions,
 		Tune: func(cfg *Config, tier, entry string) {
@@ -203,12 +203,12 @@ var propSpecs = []PropSpec{
 		}},
 	{ID: "C04", Pkgs: []string{"itertool"},
 		BoundsQ:     "11 constructs (Split, Buffer, ParallelBuffer, Map, GenerateParallel, MergeIterators, Chain, MergeSlices, MergeSliceIterators, dt.Map and adt.Map iterators) x <=2 items x every cut point x {exhaust, Close (twice), cancel, Close then cancel}; a consumer parked in ReadOne released by Close/cancel from another goroutine (4 constructs); Split(2) with one output abandoned and the other closed; ParallelBuffer/GenerateParallel with 3-4 items for 2 workers sharing the output buffer, stopped early; preemption bound 1",
-		BoundsT:     "<=3 items; preemption bound 2",
+		BoundsT:     "<=3 items; preemption bound 2 except for the construct x cut x stop matrix (bound 1: bound 2 with 3 items does not complete within the budget)",
 		Outside:     "ProcessParallel as a Worker (returns only after its workers, see C01/C03); BufferedChannel (a Go channel has no Close for the consumer; covered in C02 with exhaustion); more items/workers/preemptions; 'promptly' = at quiescence",
 		Assumptions: commonAssumptions,
 		Tune: func(cfg *Config, tier, entry string) {
 			cfg.Preempt = 1
-			if tier == "thorough" || entry == "VC04_SharedBuffer" {
+			if (tier == "thorough" && entry != "VC04_Stop") || entry == "VC04_SharedBuffer" {
 				// the shared-buffer hand-off needs two preemptions to be seen
 				// (sleep sets are applied under the bound, see DESIGN 16)
 				cfg.Preempt = 2
